@@ -134,6 +134,7 @@ THEOREMS = [
     "OllamaVerif.C09.push_omits_config",
     "OllamaVerif.C09.push_manifest_after_every_blob",
     "OllamaVerif.C09.F30_push_never_offers_config",
+    "OllamaVerif.C09.F30_config_never_requested",
 ]
 OVERLAY = {"server/internal/client/ollama/zz_verif_c09_test.go": "server_internal_client_ollama/zz_verif_c09_test.go"}
 OVERLAY_LEGACY = {"server/zz_verif_c09_push_test.go": "server/zz_verif_c09_push_test.go"}
